@@ -434,6 +434,10 @@ def startDeploy (w : World) (cid : Nat) (svc : Bytes) (slot : Bool) (targets : L
       let o' : Obj := { id := w.next + 1, name := svc, gate := g.id }
       mk { w with gates := w.gates ++ [g], objs := w.objs ++ [o'], next := w.next + 2 } o'.id
 
+/-- `ServiceMap.Set`: one update of the table entry of that name -/
+def installTable (tbl : List (Bytes × Nat)) (name : Bytes) (oid : Nat) : List (Bytes × Nat) :=
+  if tbl.any (·.1 = name) then tbl.map (fun p => if p.1 = name then (p.1, oid) else p) else tbl ++ [(name, oid)]
+
 def cmdStep (w : World) (c : Cmd) : Option World :=
   if c.parkedAt.isSome then none else
   match c.phase with
@@ -455,8 +459,7 @@ def cmdStep (w : World) (c : Cmd) : Option World :=
     match getO w oid with
     | none => none
     | some o =>
-      let w1 := { w with table := if w.table.any (·.1 = o.name) then w.table.map (fun p => if p.1 = o.name then (p.1, oid) else p)
-                                  else w.table ++ [(o.name, oid)] }
+      let w1 := { w with table := installTable w.table o.name oid }
       some (park w1 c "deploy.installed" (.installed replaced))
   | .installed replaced =>
     match replaced with
@@ -533,5 +536,139 @@ def advance : Nat → World → Nat → World
       else if t ≤ w.now ∧ t ≤ target then advance fuel (settle 10000 w) target   -- overdue: settle handles it
       else settle 10000 { w with now := target }
     | none => settle 10000 { w with now := target }
+
+/-! ### schedule lines -/
+
+inductive Op
+  | target (name : Bytes) (mode : ProbeMode)
+  | hold (name : Bytes) (v : Bool)
+  | arm (label : String)
+  | disarm (label : String)
+  | deploy (c : Nat) (svc : Bytes) (rollout : Bool) (targets : List Bytes) (dt drt : Nat)
+  | pause (c : Nat) (svc : Bytes) (drt failAfter : Nat)
+  | stop (c : Nat) (svc : Bytes) (drt : Nat) (msg : Bytes)
+  | resume (c : Nat) (svc : Bytes)
+  | remove (c : Nat) (svc : Bytes)
+  | rolloutSet (c : Nat) (svc : Bytes) (percent : Int) (allow : List Bytes)
+  | rolloutStop (c : Nat) (svc : Bytes)
+  | req (r : Nat) (svc : Bytes) (cookie : Bytes) (hc : Bool)
+  | release (label key : String)
+  | respond (r : Nat) (status : Nat)
+  | advance (ns : Nat)
+deriving Repr
+
+def fuel : Nat := 100000
+
+def setScript (w : World) (name : Bytes) (f : Script → Script) : World :=
+  if w.scripts.any (·.name = name) then { w with scripts := w.scripts.map fun s => if s.name = name then f s else s }
+  else { w with scripts := w.scripts ++ [f { name := name }] }
+
+/-- threads parked at armed hooks, as `label:key` -/
+def parkedList (w : World) : List String :=
+  (w.reqs.filterMap fun r => r.parkedAt.map fun l => s!"{l}:r{r.id}") ++
+  (w.cmds.filterMap fun c => c.parkedAt.map fun l => s!"{l}:{showB c.svc}") ++
+  (w.tgts.filterMap fun t => match t.loop with | .parked _ _ => some s!"probe.updated:{showB t.name}" | _ => none) ++
+  (w.cmds.flatMap fun c => match c.phase with
+    | .draining _ ds _ => ds.filterMap fun d =>
+        if d.phase = 1 then (getT w d.tgt).map fun t => s!"drain.deadline:{showB t.name}" else none
+    | _ => [])
+
+def insertStr (s : String) : List String → List String
+  | [] => [s]
+  | x :: xs => if s ≤ x then s :: x :: xs else x :: insertStr s xs
+def sortStrs (l : List String) : List String := l.foldr insertStr []
+
+/-- `key=*`: the parked thread with the smallest key at that label -/
+def resolveKey (w : World) (label key : String) : String :=
+  if key = "*" then
+    match sortStrs ((parkedList w).filter (·.startsWith (label ++ ":"))) with
+    | k :: _ => (k.drop (label.length + 1)).toString
+    | [] => "*"
+  else key
+
+def release (w : World) (label key0 : String) : World :=
+  let key := resolveKey w label key0
+  if label = "probe.updated" then
+    match w.tgts.find? fun t => showB t.name == key && (match t.loop with | .parked _ _ => true | _ => false) with
+    | some t => match t.loop with
+      | .parked changed became => if changed then probeNotify w t.id became else setT w { t with loop := .idle }
+      | _ => w
+    | none => w
+  else if label = "drain.deadline" then
+    match w.cmds.findSome? fun c => match c.phase with
+      | .draining lbs ds final =>
+        (ds.find? fun d => d.phase == 1 && ((getT w d.tgt).map fun t => showB t.name) == some key).map fun d => (c, lbs, ds, final, d)
+      | _ => none with
+    | some (c, lbs, ds, final, d) =>
+      let w1 := drainFinish w d
+      setC w1 { c with phase := .draining lbs (ds.map fun x => if x.tgt = d.tgt then { x with phase := 2 } else x) final }
+    | none => w
+  else if label.startsWith "req." then
+    match w.reqs.find? fun r => r.parkedAt == some label && s!"r{r.id}" == key with
+    | some r => setR w { r with parkedAt := none }
+    | none => w
+  else
+    let cands := w.cmds.filter fun c => c.parkedAt == some label && showB c.svc == key
+    match cands.foldl (fun (acc : Option Cmd) c => match acc with
+        | none => some c
+        | some a => if c.parkSeq < a.parkSeq then some c else some a) none with
+    | some c => setC w { c with parkedAt := none }
+    | none => w
+
+def withInstalled (w : World) (c : Nat) (svc : Bytes) (k : Obj → World) : World :=
+  match installedObj w svc with
+  | none => emit w s!"cmd c{c} res=notFound"
+  | some o => k o
+
+/-- one schedule line, then everything that can run runs -/
+def applyOp (w : World) : Op → World
+  | .target n m => settle fuel (setScript w n fun s => { s with mode := m })
+  | .hold n v => settle fuel (setScript w n fun s => { s with hold := v })
+  | .arm l => settle fuel { w with armed := if w.armed.contains l then w.armed else w.armed ++ [l] }
+  | .disarm l => settle fuel { w with armed := w.armed.filter (· ≠ l) }
+  | .deploy c svc rollout ts dt drt => settle fuel (startDeploy w c svc rollout ts dt drt)
+  | .pause c svc drt fa =>
+    settle fuel (withInstalled w c svc fun o =>
+      match getG w o.gate with
+      | none => w
+      | some g =>
+        let w1 := setG w (gatePause g fa)
+        let cmd : Cmd := { id := c, svc := svc, kind := .pause fa, drt := drt, phase := .gateSet o.id }
+        park { w1 with cmds := w1.cmds ++ [cmd] } cmd "pause.gated" (.gateSet o.id))
+  | .stop c svc drt msg =>
+    settle fuel (withInstalled w c svc fun o =>
+      match getG w o.gate with
+      | none => w
+      | some g =>
+        let w1 := setG w (gateSet g .stopped msg)
+        let cmd : Cmd := { id := c, svc := svc, kind := .stop msg, drt := drt, phase := .gateSet o.id }
+        park { w1 with cmds := w1.cmds ++ [cmd] } cmd "stop.gated" (.gateSet o.id))
+  | .resume c svc =>
+    settle fuel (withInstalled w c svc fun o =>
+      match getG w o.gate with
+      | none => w
+      | some g => emit (setG w (gateSet g .running [])) s!"cmd c{c} res=ok")
+  | .remove c svc =>
+    settle fuel (withInstalled w c svc fun o =>
+      let w1 := (o.active.toList ++ o.rollout.toList).foldl disposeLb w
+      emit { w1 with table := w1.table.filter (·.1 ≠ svc) } s!"cmd c{c} res=ok")
+  | .rolloutSet c svc p allow =>
+    settle fuel (withInstalled w c svc fun o =>
+      if o.rollout.isNone then emit w s!"cmd c{c} res=rolloutNotSet"
+      else emit (setO w { o with split := some ⟨p, allow⟩ }) s!"cmd c{c} res=ok")
+  | .rolloutStop c svc =>
+    settle fuel (withInstalled w c svc fun o => emit (setO w { o with split := none }) s!"cmd c{c} res=ok")
+  | .req r svc ck hc => settle fuel { w with reqs := w.reqs ++ [{ id := r, svc := svc, cookie := ck, hc := hc }] }
+  | .release l k => settle fuel (release w l k)
+  | .respond r st => settle fuel (respond w r st)
+  | .advance d => advance fuel w (w.now + d)
+
+/-- the observation printed after a schedule line -/
+def observe (w : World) : World × String :=
+  ({ w with events := [] },
+   s!"t={w.now} ev=[{";".intercalate (sortStrs w.events)}] parked=[{";".intercalate (sortStrs (parkedList w))}]")
+
+/-- run a whole schedule, collecting every event -/
+def runOps (ops : List Op) : World := ops.foldl applyOp {}
 
 end KamalProxy.Proxy
